@@ -12,6 +12,8 @@
 import GraphiqModel.Proofs.DMSem
 import GraphiqModel.Proofs.C17Bridge
 import GraphiqModel.Proofs.C17BridgeUhlmann
+import GraphiqModel.Proofs.C17BridgeStab
+import GraphiqModel.Proofs.SweepNoisePsd
 namespace Graphiq.C17
 open Graphiq Graphiq.DM
 
@@ -136,6 +138,22 @@ theorem model_closed_forms_are_F_and_T (d : Nat) (a b : Fin d → Rat) (ha : ∀
 example : IsProb (fun _ : Fin 2 => (1 / 2 : ℝ)) := ⟨fun _ => by norm_num, by simp⟩
 end commuting
 
+open scoped MatrixOrder ComplexOrder in
+/-- two clauses of the general statement below (any dimension, Mathlib's `CFC.sqrt`): the
+    Uhlmann fidelity is a nonnegative real number, and `F(ρ, ρ) = (tr ρ)²` — 1 for every density matrix. -/
+theorem uhlmann_nonneg_and_self {ι : Type} [Fintype ι] [DecidableEq ι] (ρ σ : Matrix ι ι ℂ) (hρ : ρ.PosSemidef) :
+    0 ≤ C17B.uhlmann ρ σ ∧ C17B.uhlmann ρ ρ = (Matrix.trace ρ) ^ 2 :=
+  ⟨C17B.uhlmann_nonneg ρ σ, C17B.uhlmann_self ρ hρ⟩
+
+open scoped MatrixOrder ComplexOrder in
+/-- **The Uhlmann fidelity is symmetric** (any dimension, arbitrary — also non-commuting — positive semidefinite `ρ`, `σ`):
+    `(tr √(√ρ σ √ρ))² = (tr √(√σ ρ √σ))²`.  With `A = √ρ`, `B = √σ` the two matrices under the root are `(AB)(AB)†` and
+    `(AB)†(AB)`, which have the same characteristic polynomial, hence the same eigenvalues, and the trace of the positive
+    square root is the sum of the square roots of the eigenvalues. -/
+theorem uhlmann_symmetric {ι : Type} [Fintype ι] [DecidableEq ι] (ρ σ : Matrix ι ι ℂ) (hρ : ρ.PosSemidef)
+    (hσ : σ.PosSemidef) : C17B.uhlmann ρ σ = C17B.uhlmann σ ρ :=
+  C17B.uhlmann_symm ρ σ hρ hσ
+
 /-- the full statement for arbitrary (non-commuting) density matrices, kept visible.  It is **not expressible** in the
     exact model (matrix square roots of irrational spectra) and is not proved: `uhlmann ρ σ` stands for
     `(tr √(√ρ σ √ρ))²`, `tnorm` for the trace norm. -/
@@ -219,6 +237,35 @@ theorem stabilizer_fidelity_is_squared_inner_product (a b : Tab) (ha : a.isSympl
       ((stabOverlap a b : Rat) : ℂ) = (∑ x, star (ψa x) * ψb x) * star (∑ x, star (ψa x) * ψb x) :=
   C17B.stabOverlap_inner a b ((Tab.isSymplectic_iff a).1 ha) ((Tab.isSymplectic_iff b).1 hb) hn
 
+open scoped MatrixOrder ComplexOrder in
+/-- **The pure-state shortcut of `fidelity` is the Uhlmann fidelity** (any dimension): for a unit vector `ψ` and a
+    positive semidefinite `σ`, the value `tr(ρσ)` that the code returns when one argument is pure equals
+    `(tr √(√ρ σ √ρ))²` — with the pure state `ρ = |ψ⟩⟨ψ|` in either argument position (`√` = Mathlib's `CFC.sqrt`). -/
+theorem pure_state_shortcut_is_uhlmann {ι : Type} [Fintype ι] [DecidableEq ι] (ψ : ι → ℂ)
+    (hψ : dotProduct (star ψ) ψ = 1) (σ : Matrix ι ι ℂ) (hσ : σ.PosSemidef) :
+    C17B.uhlmann (C17B.ketBra ψ) σ = Matrix.trace (C17B.ketBra ψ * σ) ∧
+    C17B.uhlmann σ (C17B.ketBra ψ) = Matrix.trace (σ * C17B.ketBra ψ) :=
+  ⟨C17B.uhlmann_pure_left ψ hψ σ hσ, C17B.uhlmann_pure_right ψ σ hσ⟩
+
+open scoped MatrixOrder ComplexOrder in
+/-- **The model's `fidelity` returns the Uhlmann fidelity on its pure branch** (every n): if the first argument represents a
+    pure state `|ψ⟩⟨ψ|` (`ψ` a unit vector) and the second a density matrix (positive semidefinite, trace 1), both arguments
+    pass `is_density_matrix`, the first passes `is_pure`, the value `Re tr(ρσ)` lies in `[0,1]` (so `clip` changes nothing)
+    and it equals `(tr √(√ρ σ √ρ))²`. -/
+theorem dm_fidelity_pure_branch_is_uhlmann {n : Nat} (m m' : Mat) (ψ : Hilbert.Bits n → ℂ) (M' : Hilbert.DMat n)
+    (hψ : dotProduct (star ψ) ψ = 1) (hm : Hilbert.Rep n m (C17B.ketBra ψ)) (hm' : Hilbert.Rep n m' M')
+    (hM' : M'.PosSemidef) (ht : Matrix.trace M' = 1) :
+    ∃ q : Rat, fidelity m m' = .ok (.val q) ∧ ((q : ℝ) : ℂ) = C17B.uhlmann (C17B.ketBra ψ) M' :=
+  C17B.fidelity_pure_rep ψ M' hψ hm hm' hM' ht
+
+/-- **The fidelity both backends report for two stabilizer states is their Uhlmann fidelity** (every n, valid tableaux of
+    equal size): `(tr √(√ρ_a ρ_b √ρ_a))² = stabOverlap a b`, where `ρ = Hilbert.tabRho` is the complex matrix the exact
+    `stabilizerDensity` represents. -/
+theorem stabilizer_fidelity_is_uhlmann (a b : Tab) (ha : a.isSymplectic = true) (hb : b.isSymplectic = true)
+    (hn : a.n = b.n) :
+    C17B.uhlmann (Hilbert.tabRho a.n a) (Hilbert.tabRho a.n b) = ((stabOverlap a b : Rat) : ℂ) :=
+  C17B.uhlmann_stabilizer a b ((Tab.isSymplectic_iff a).1 ha) ((Tab.isSymplectic_iff b).1 hb) hn
+
 /-- **`Infidelity` agrees across representations** (every n, all valid tableaux of equal size): it returns the same value
     whether target and state are held as tableaux or both as matrices — unconditionally — and also with the target as a
     matrix and the state as a tableau **provided the state's generators carry no sign** (the region outside known finding
@@ -265,5 +312,28 @@ example : isDensityMatrix (stabilizerDensity bellTab) = true ∧ isPure (stabili
     stabOverlap bellTab bellTab = 1 ∧ stabOverlap bellTab (Tab.ket0 2) = 1/2 := by decide +kernel
 example : bellTab.isSymplectic = true ∧ (Tab.ket0 2).isSymplectic = true ∧ bellTab.n = (Tab.ket0 2).n ∧
     ∀ k, k < (Tab.ket0 2).n → ((Tab.ket0 2).row (k + (Tab.ket0 2).n)).r = false := by decide
+
+/-- the hypotheses of `dm_fidelity_pure_branch_is_uhlmann` are met by the exact matrix of every valid tableau (first argument) -/
+example : ∃ ψ : Hilbert.Bits bellTab.n → ℂ, dotProduct (star ψ) ψ = 1 ∧
+    Hilbert.Rep bellTab.n (stabilizerDensity bellTab) (C17B.ketBra ψ) :=
+  C17B.stabilizerDensity_rep_ketBra bellTab ((Tab.isSymplectic_iff _).1 (by decide))
+
+/-! ## Cross-references (sweep): one embedding for C01 / C06 / C17
+
+  The bridge of this file (`Hilbert.Rep`, deep-c01) and the embedding C06 uses (`MixDM.toC`, deep-c06) are the same map
+  (`Proofs/SweepBridge.lean`); hence the exact tests proved correct here apply to the matrices C06's theorems are about. -/
+
+/-- **one embedding**: `Hilbert.Rep n m M` says exactly "`m` has size `2ⁿ` and `MixDM.toC n m = M`" -/
+theorem bridge_is_the_embedding_of_C06 (n : Nat) (m : Mat) (M : Hilbert.DMat n) :
+    Hilbert.Rep n m M ↔ m.n = 2 ^ n ∧ MixDM.toC n m = M := Sweep.rep_iff_toC n m M
+
+/-- **the density matrix the exact model of the noisy `DensityMatrixCompiler` returns (C06) passes the exact positivity test
+    of this file** — every measurement-free circuit on existing qubits, physical noise parameters, every number of qubits
+    (positivity itself is `C06.dm_is_positive_semidefinite`; the test's correctness is `exact_psd_test_correct`) -/
+theorem noisy_compiled_dm_passes_the_exact_psd_test (ns : Bool) (ne np nc : Nat) (det : Bool) (ops : List Noise.COp)
+    (hw : ∀ op ∈ ops, MixDM.OpOK (ne + np) np op) (hl : ∀ op ∈ ops, MixDM.ParamPhys op.n0 ∧ MixDM.ParamPhys op.n1)
+    (d : Noise.DmSt) (ρ : Mat) (h : Noise.compileDM ns ne np nc det ops = .ok d) (hρ : d.ρ = some ρ) :
+    isPsd ρ = true :=
+  (Sweep.compileDM_isPsd ns ne np nc det ops hw hl d ρ h hρ).1
 
 end Graphiq.C17
